@@ -1,4 +1,5 @@
 import SigHook.Lemmas.HalfLock
+import SigHook.Lemmas.RegistryConcLive
 /-!
 # C18 — Registry calls always terminate when overlapping deliveries terminate
 
@@ -255,3 +256,51 @@ example : ∃ s, Reachable 16 [[.write true true], [.write true false], [.write 
   exact key _ _ Reachable.init
 
 end SigHook.HalfLock
+
+/-!
+## Registry level (L6)
+
+The same two statements for the whole registry - two half-locks, the nested `race_fallback`
+lock, `sigaction` calls, deliveries - in every reachable state of `Model/RegistryConc.lean`, for
+any number of threads and any scripts.
+-/
+namespace SigHook.RegConc
+open SigHook.Registry (Disp Env)
+open SigHook.HalfLock (phaseAt)
+
+/-- **C18.registry_waits_only_for_data_mutex** — the one and only step of any registry operation
+that can be refused is taking `data`'s writer mutex while another mutator holds it. Everything
+else - every step of a delivery, the barrier loop, the nested lock of `race_fallback` (always free
+when asked for: the lock order), both `sigaction` calls, the release - is enabled in every
+reachable state whatever the other threads do. -/
+theorem C18_registry_waits_only_for_data_mutex {env : Env} {ye : Nat} {disp : List (Int × Disp)}
+    {scripts : List (List Op)} {s : Sys} {t : Nat} {th : Thread}
+    (hr : Reachable env ye disp scripts s) (hth : s.threads[t]? = some th)
+    (hne : th.pc ≠ .idle ∨ th.script ≠ [])
+    (hl : ∀ op, th.pc = .mLockD op → s.hd.mutexOwner = none) :
+    ∃ s' out, step env ye s t = some (s', out) := by
+  have ok := ownok_reachable hr
+  exact step_enabled6 (inv6_reachable hr) (by rw [ok.2]; exact ok.1) hth hne hl
+
+/-- **C18.registry_no_deadlock** — in every reachable state in which some thread has not
+finished, some thread can step: mutators never deadlock with each other or with deliveries. -/
+theorem C18_registry_no_deadlock {env : Env} {ye : Nat} {disp : List (Int × Disp)}
+    {scripts : List (List Op)} {s : Sys} {t : Nat} {th : Thread}
+    (hr : Reachable env ye disp scripts s) (hth : s.threads[t]? = some th)
+    (hne : th.pc ≠ .idle ∨ th.script ≠ []) :
+    ∃ t' s' out, step env ye s t' = some (s', out) := by
+  have ok := ownok_reachable hr
+  exact no_deadlock6 (inv6_reachable hr) (by rw [ok.2]; exact ok.1) hth hne
+
+/-- **C18.registry_lock_order** — `race_fallback`'s writer section is only ever entered from
+inside `data`'s, and at most one thread is inside `data`'s. -/
+theorem C18_registry_lock_order {env : Env} {ye : Nat} {disp : List (Int × Disp)}
+    {scripts : List (List Op)} {s : Sys} {i j : Nat} {thj : Thread}
+    (hr : Reachable env ye disp scripts s) (hj : s.threads[j]? = some thj)
+    (hc : Phase.crit (phaseAt s.hf j) = true) :
+    Phase.crit (phaseAt s.hd j) = true ∧ (Phase.crit (phaseAt s.hd i) = true → i = j) := by
+  have hI := inv6_reachable hr
+  have hd := hf_crit_hd_crit hI hj hc
+  exact ⟨hd, fun hi => crit_unique hI.emb.hd hi hd⟩
+
+end SigHook.RegConc
